@@ -33,7 +33,7 @@ vars == <<parts, dels, embeds, atts, hist, enc>>
 
 M == INSTANCE MimeBuild WITH MAXP <- 0, MAXE <- 0, MAXA <- 0, ENCS <- {}, PENCS <- {}, FENCS <- {}, CCS <- <<>>,
                         PRODS <- <<>>, SRCS <- <<>>, ROTS <- {}, BOUNDARIES <- {}, DELS <- {}, HDRS <- {}, PDESCS <- {}, FDESCS <- {},
-                        FNAMES <- {}, FCIDS <- {}, OPSEQS <- {}, FAULTS <- {}, ROUNDTRIP <- {}, SMIMES <- {}, MWS <- {}, STYLES <- {}, PGPS <- {}, prog <- 0, pc <- 0
+                        FNAMES <- {}, FCIDS <- {}, OPSEQS <- {}, FAULTS <- {}, ROUNDTRIP <- {}, SMIMES <- {}, MWS <- {}, STYLES <- {}, PGPS <- {}, CHARSETS <- {}, PCHARSETS <- {}, prog <- 0, pc <- 0
 
 Init == parts = <<>> /\ dels = {} /\ embeds = <<>> /\ atts = <<>> /\ hist = <<>> /\ enc \in ENCS
 
